@@ -407,6 +407,61 @@ theorem effect_roundtrip (k : Nat) (f : Family) (P : Slots) (hP : P.ok) (classes
   manager_roundtrip_on (effectHook k f P) _ classes (fuel + 1) cls hist hsafe
     (effect_law k f P hP classes fuel cls hist c hc hp hpl) o ho s s' h
 
+/-! ### effects inside triggers inside the manager: the slice law at full nesting -/
+
+/-- the `i`-th object of the object list that link `j` of a struct holds -/
+def childAt (v : Val) (j i : Nat) : Option Val :=
+  match v with
+  | .strct vals =>
+    match vals[j]? with
+    | some (.list os) => os[i]?
+    | _ => none
+  | _ => none
+
+/-- what `construct` returns for a child object is the normalised child -/
+theorem normalize_childAt (classes : List ClassSpec) (fuel cls : Nat) (hist : List Nat) (c : ClassSpec) (vals : List Val)
+    (j i a ccls : Nat) (path : List PStep) (d : List Val) (nm : List Nat) (g : List (Nat × Aoe.Codec.Expr))
+    (acts : List RefreshAct) (names : List Nat) (child : Val)
+    (hc : classes[cls]? = some c) (hj : c.links[j]? = some (a, .objs path ccls d nm g acts names))
+    (hch : childAt (.strct vals) j i = some child) :
+    childAt (normalize classes (fuel + 1) cls hist (.strct vals)) j i =
+      some (normalize classes fuel ccls (hist ++ [i]) child) := by
+  simp only [childAt] at hch
+  cases hv : vals[j]? with
+  | none => simp [hv] at hch
+  | some v =>
+    rw [hv] at hch
+    cases v with
+    | list os =>
+      simp only at hch
+      have hz : (c.links.zip vals)[j]? = some ((a, .objs path ccls d nm g acts names), .list os) := by
+        rw [List.getElem?_zip_eq_some]; exact ⟨hj, hv⟩
+      simp only [normalize, hc, childAt, List.getElem?_map, hz, Option.map_some, normLink, List.getElem?_zipIdx, hch,
+        Nat.zero_add]
+    | _ => simp at hch
+
+/-- **an armour/attack effect anywhere in the manager's object tree survives the save**: when the object that
+`construct` returns for the manager is the normalised manager object (that is what `construct_after_commit` and
+`construct_after_commitAll` establish), effect `j` of trigger `i` decodes to the effect that was handed over -/
+theorem effect_in_manager (k : Nat) (f : Family) (P : Slots) (hP : P.ok) (classes : List ClassSpec) (fuel m : Nat)
+    (cm ct ce : ClassSpec) (jt je at' ae nct nce : Nat)
+    (patht pathe : List PStep) (dt de : List Val) (nmt nme : List Nat) (gt ge : List (Nat × Aoe.Codec.Expr))
+    (actst actse : List RefreshAct) (namest namese : List Nat)
+    (hm : classes[m]? = some cm) (hjt : cm.links[jt]? = some (at', .objs patht nct dt nmt gt actst namest))
+    (hct : classes[nct]? = some ct) (hje : ct.links[je]? = some (ae, .objs pathe nce de nme ge actse namese))
+    (hce : classes[nce]? = some ce) (hp : allPlainSkip ce = true) (hpl : slotsPlain ce.links P = true)
+    (mvals tvals : List Val) (i j : Nat) (o : EffectObj)
+    (hti : childAt (.strct mvals) jt i = some (.strct tvals))
+    (hej : childAt (.strct tvals) je j = some (effToVal k P o)) (ho : EffDom k f P ce.links o) :
+    ∃ t' e', childAt (normalize classes (fuel + 3) m [] (.strct mvals)) jt i = some t' ∧ childAt t' je j = some e' ∧
+      effOfVal k f P e' = some o := by
+  have h1 := normalize_childAt classes (fuel + 2) m [] cm mvals jt i at' nct patht dt nmt gt actst namest _ hm hjt hti
+  have h2 := normalize_childAt classes (fuel + 1) nct ([] ++ [i]) ct tvals je j ae nce pathe de nme ge actse namese _ hct hje hej
+  obtain ⟨vals, hv, hl, hs⟩ := effToVal_strct k f P _ o hpl ho
+  refine ⟨_, _, h1, h2, ?_⟩
+  rw [hv, normalize_plainSkip classes fuel nce _ ce vals hce hp hl hs, ← hv]
+  exact eff_of_to k f P _ o hP ho
+
 /-! non-vacuity: a four-link effect class over one record, a quantity-based effect with class 3 and amount 5 -/
 def demoEffClasses : List ClassSpec :=
   [{ name := 0, links := [
